@@ -77,9 +77,23 @@ DESC = [
 ]
 
 
+_DUMP_PATH = None
+
+
+def dumped(tc):
+    """the bytes the real `dump()` writes for this testcase (what the test would find in the file)"""
+    global _DUMP_PATH
+    if _DUMP_PATH is None:
+        import os
+        _DUMP_PATH = loaders.scratch() / f"dump-{os.getpid()}.bin"
+    tc.dump(_DUMP_PATH)
+    return _DUMP_PATH.read_bytes()
+
+
 class Run:
     def __init__(self):
-        self.atts = []      # dict(desc, lo, hi, n, resp, cand=fields, best_before=fields)
+        self.atts = []      # dict(desc, lo, hi, n, resp, cand=fields, best_before=fields, shown=bytes written by dump())
+        self.dump_diff = None  # (test index, bytes dump() wrote, before+parts+after) of the first tested candidate where they differ
         self.verdicts = []  # verdict per test actually run
         self.best = None
         self.error = None
@@ -88,7 +102,7 @@ class Run:
 
     def encode(self):
         def one(a):
-            return f"{a['tag']}:{a['lo']}:{a['hi']}:{a['n']}:{a['resp']}:{enc_bytes(content(a['cand']))}"
+            return f"{a['tag']}:{a['lo']}:{a['hi']}:{a['n']}:{a['resp']}:{enc_bytes(a.get('shown', content(a['cand'])))}"
         b = self.best
         flags = "E" if self.error else ""
         return (f"best={enc_bytes(b[0])}/{enc_list(b[1])}/{enc_bools(b[2])}/{enc_bytes(b[3])} n={len(self.verdicts)} "
@@ -156,7 +170,11 @@ def _run_real(S, name, cfg, tc, decider, clock_times, max_tests, watchdog):
                     raise TestLimit()
                 if limit is not None and clk.times and clk.times[min(clk.tests, len(clk.times) - 1)] > start + limit:
                     run.late_tests += 1
-                v = bool(decider(k, content(fields(attempt))))
+                shown = dumped(attempt)
+                pending[-1]["shown"] = shown
+                if run.dump_diff is None and shown != content(fields(attempt)):
+                    run.dump_diff = (k, shown, content(fields(attempt)))
+                v = bool(decider(k, shown))
                 run.verdicts.append(v)
                 pending[-1]["resp"] = "a" if v else "r"
                 clk.tests += 1
@@ -174,16 +192,18 @@ def _run_real(S, name, cfg, tc, decider, clock_times, max_tests, watchdog):
     return run
 
 
-def model_line(name, cfg, f, verdicts, clock_times=None, kind="line"):
+def model_line(name, cfg, f, verdicts, clock_times=None, kind="line", cut=None):
     if name == "minimize-collapse-brace":
         name = name + ":" + kind
+        if kind == "symbol" and cut is not None:
+            name += f":{enc_bytes(cut[0])}:{enc_bytes(cut[1])}"
     v = "".join("1" if x else "0" for x in verdicts) or "0"
     c = "N" if not clock_times else ",".join(str(x) for x in clock_times)
     return f"strategy {name} {enc_cfg(cfg)} {enc_bytes(f[0])} {enc_list(f[1])} {enc_bools(f[2])} {enc_bytes(f[3])} {v} {c}"
 
 
-def testcase_from_fields(kind, f):
-    proto = loaders.new_testcase(kind)
+def testcase_from_fields(kind, f, cut=None):
+    proto = loaders.new_testcase(kind, cut)
     proto.filename = "/nonexistent/verif-in-memory"
     proto.extension = ".txt"
     return mk_like(proto, f)
@@ -192,3 +212,54 @@ def testcase_from_fields(kind, f):
 def layouts_testcase(n, red=None, dup=False):
     parts = [bytes([97 + (0 if dup and i % 3 == 0 else i % 26)]) + b"\n" for i in range(n)]
     return (b"", parts, list(red) if red is not None else [True] * n, b"")
+
+
+_COLLISION = {}
+
+
+def find_key_collision(budget=220000):
+    """Birthday search for two different file contents to which the real `ReductionIterator.try_testcase`
+    gives the same de-duplication key (observed through `get_tried()`), whatever key function it uses.
+    With SHA-512 none exists within any budget; a 32-bit key (a checksum, a truncated digest) collides
+    within ~10^5 probes.  Returns (line_a, line_b) — two distinct one-line contents — or None."""
+    if "r" in _COLLISION:
+        return _COLLISION["r"]
+    import random
+
+    import lithium.strategies as S
+    from lithium.testcases import TestcaseLine
+
+    class _It(S.ReductionIterator):
+        def __iter__(self):
+            return iter(())
+
+    rng = random.Random(20240917)
+    seen = {}
+    res = None
+    proto = TestcaseLine()
+    if not (hasattr(S.ReductionIterator, "get_tried") and hasattr(S.ReductionIterator, "try_testcase")):
+        _COLLISION["r"] = None
+        return None
+    alphabet = b"abcdefghijklmnopqrstuvwxyz0123456789"
+    try:
+        for _ in range(budget):
+            line = bytes(rng.choice(alphabet) for _ in range(7)) + b"\n"
+            tc = TestcaseLine()
+            tc.parts = [line]
+            tc.reducible = [True]
+            it = _It(proto)
+            for _t in it.try_testcase(tc):
+                pass
+            keys = it.get_tried()
+            if len(keys) != 1:
+                break
+            (key,) = keys
+            other = seen.get(key)
+            if other is not None and other != line:
+                res = (other, line)
+                break
+            seen[key] = line
+    except Exception:  # pylint: disable=broad-except
+        res = None
+    _COLLISION["r"] = res
+    return res
